@@ -763,13 +763,37 @@ class ManifestRecursiveLoader:
         renamed_manifests = {}
         # NB: a Manifest can reference another Manifest of the same
         # directory (e.g. Manifest -> Manifest.files.gz); the referenced one
-        # is always loaded after its referrer, so process same-directory
-        # Manifests in reverse load order to write it first
-        for mpath, relpath, m in sorted(
-                reversed(list(self._iter_unordered_manifests_for_path(
-                    '', recursive=True))),
-                key=lambda kdv: len(kdv[1]),
-                reverse=True):
+        # has to be written first.  It is usually loaded after its referrer,
+        # so start from the reverse load order...
+        by_depth = sorted(
+            reversed(list(self._iter_unordered_manifests_for_path(
+                '', recursive=True))),
+            key=lambda kdv: len(kdv[1]),
+            reverse=True)
+        # ...but it may have been loaded first (when yet another Manifest
+        # lists it as well), so move same-directory references before
+        # their referrers explicitly
+        by_path = dict((kdv[0], kdv) for kdv in by_depth)
+        ordered = []
+        queued = set()
+
+        def queue_manifest(kdv):
+            mpath, relpath, m = kdv
+            if mpath in queued:
+                return
+            queued.add(mpath)
+            for e in m.entries:
+                if e.tag == 'MANIFEST':
+                    fullpath = os.path.join(relpath, e.path)
+                    if (fullpath in by_path
+                            and os.path.dirname(fullpath) == relpath):
+                        queue_manifest(by_path[fullpath])
+            ordered.append(kdv)
+
+        for kdv in by_depth:
+            queue_manifest(kdv)
+
+        for mpath, relpath, m in ordered:
             for e in m.entries:
                 if e.tag != 'MANIFEST':
                     continue
